@@ -11,7 +11,7 @@ From RcProxy Require Import Base.Bytes Base.Dec Gen.Generated Spec.RespGrammar
   Model.RespBuf Model.Commands Model.Crc16 Model.ClientCodec Model.ClientFeed Model.ServerCodec Model.Route Model.Cluster.
 Open Scope N_scope.
 
-Inductive fragref := FProbe | FReq (mid : nat) (slot : N).
+Inductive fragref := FProbe (asking : bool) | FReq (mid : nat) (slot : N).
 
 (* ghost fields (never read by the step functions): pm_seq numbers the requests of one client in
    arrival order; pc_sent / pc_hist log which request's reply was appended to the client's socket;
@@ -75,7 +75,7 @@ Definition bump_sid (st : pst) : pst :=
 
 Definition fragref_eqb (a b : fragref) : bool :=
   match a, b with
-  | FProbe, FProbe => true
+  | FProbe a, FProbe b => Bool.eqb a b
   | FReq m s, FReq m' s' => Nat.eqb m m' && N.eqb s s'
   | _, _ => false
   end.
@@ -142,7 +142,7 @@ Definition close_client (st : pst) (c : nat) : pst :=
 Fixpoint fail_frags (st : pst) (fs : list fragref) : pst :=
   match fs with
   | [] => st
-  | FProbe :: r => fail_frags st r
+  | FProbe _ :: r => fail_frags st r
   | FReq mid slot :: r =>
       if frag_done st mid slot then fail_frags st r
       else
@@ -358,7 +358,7 @@ Definition client_data (st : pst) (c : nat) (b : bytes) : pst :=
 (* ---- tasks ---- *)
 Definition frag_req (st : pst) (f : fragref) : bytes :=
   match f with
-  | FProbe => ReqClusterNodes
+  | FProbe a => if a then ReqAsking else ReqClusterNodes
   | FReq mid slot =>
       match lookup mid (msgs st) with
       | Some m => match find (fun r => N.eqb (fst r) slot) (pm_reqs m) with Some r => snd r | None => [] end
@@ -366,8 +366,8 @@ Definition frag_req (st : pst) (f : fragref) : bytes :=
       end
   end.
 
-Definition frag_slot (f : fragref) : N := match f with FReq _ s => s | FProbe => 0 end.
-Definition frag_mid (f : fragref) : option nat := match f with FReq m _ => Some m | FProbe => None end.
+Definition frag_slot (f : fragref) : N := match f with FReq _ s => s | FProbe _ => 0 end.
+Definition frag_mid (f : fragref) : option nat := match f with FReq m _ => Some m | FProbe _ => None end.
 
 (* the order in which the fragments of ONE request reach one connection is Go map iteration order:
    [order] lists the slots in the order observed on the wire; fragments of other requests keep
@@ -419,14 +419,14 @@ Definition run_task (st : pst) (order : nat -> list N) (t : ptask) : pst :=
                                                  ps_got := ps_got sv ++ concat (map (frag_req st) q');
                                                  ps_written := ps_written sv ++ map (fun f => (f, frag_req st f)) q'; ps_taken := ps_taken sv |} in
                    if cf_timeout (cfg st)
-                   then set_inflight st1 (inflight st1 ++ map (fun f => (s, f)) (filter (fun f => match f with FReq _ _ => true | FProbe => false end) q'))
+                   then set_inflight st1 (inflight st1 ++ map (fun f => (s, f)) (filter (fun f => match f with FReq _ _ => true | FProbe _ => false end) q'))
                    else st1
                end
       | None => st
       end
   | TProbe s =>
       match lookup s (servers st) with
-      | Some sv => if ps_open sv then enqueue_out st s FProbe else st
+      | Some sv => if ps_open sv then enqueue_out st s (FProbe false) else st
       | None => st
       end
   | TClose s => close_server st s
@@ -463,7 +463,7 @@ Definition mark_moved (st : pst) (mid : nat) (slot : N) : pst :=
   | None => st
   end.
 
-Definition on_moved (st0 : pst) (f : fragref) (mid : nat) (addr : bytes) : pst :=
+Definition on_moved (st0 : pst) (f : fragref) (mid : nat) (ty : N) (addr : bytes) : pst :=
   let st := mark_moved st0 mid (frag_slot f) in
   let fail e :=
     let st1 := fail_msg st mid e in
@@ -472,7 +472,9 @@ Definition on_moved (st0 : pst) (f : fragref) (mid : nat) (addr : bytes) : pst :
   | None => fail ErrUnKnownProxyPoolError
   | Some p =>
       match pool_get st p with
-      | (st1, Some s) => enqueue_out st1 s f
+      | (st1, Some s) =>
+          (* an ASK redirect: the importing node serves the slot only to a request announced by ASKING *)
+          enqueue_out (if N.eqb ty RspAsk then enqueue_out st1 s (FProbe true) else st1) s f
       | (st1, None) =>
           let st2 := fail_msg st1 mid ErrUnKnownProxyPoolConnError in
           match lookup mid (msgs st2) with Some m => flush_if_open st2 (pm_client m) | None => st2 end
@@ -502,10 +504,10 @@ Definition on_reply (st : pst) (s : nat) (ty : N) (rsp : bytes) : result pst :=
                                         ps_outq := ps_outq sv; ps_inq := inq'; ps_got := ps_got sv; ps_written := ps_written sv; ps_taken := S (ps_taken sv) |})
                                   (remove_first_inflight s f (inflight st)) in
           match f with
-          | FProbe => if is_auth_failure ty then RShutdown else ROk st0      (* handed to the topology refresh *)
+          | FProbe _ => if is_auth_failure ty then RShutdown else ROk st0      (* handed to the topology refresh *)
           | FReq mid slot =>
               if frag_done st0 mid slot then ROk st0                          (* late reply: dropped *)
-              else if (N.eqb ty RspMoved || N.eqb ty RspAsk)%bool then ROk (on_moved st0 f mid (parse_moved ty rsp))
+              else if (N.eqb ty RspMoved || N.eqb ty RspAsk)%bool then ROk (on_moved st0 f mid ty (parse_moved ty rsp))
               else
                 match lookup mid (msgs st0) with
                 | None => ROk st0
@@ -595,7 +597,7 @@ Definition server_data (st : pst) (s : nat) (b : bytes) : result pst :=
 Fixpoint expire (st : pst) (l : list (nat * fragref)) : pst :=
   match l with
   | [] => st
-  | (_, FProbe) :: r => expire st r
+  | (_, FProbe _) :: r => expire st r
   | (_, FReq mid slot) :: r =>
       if frag_done st mid slot then expire st r
       else
